@@ -7,6 +7,7 @@ the loader rewrites:
   N3  if not c: A else: B              ->  if c: B else: A           (two-armed ifs; elif chains untouched)
   N4  t = E; return t                  ->  return E                  (t bound immediately before, used only there)
   N5  assert True / bare constants     ->  removed                   (expression statements that are constants, except docstrings)
+  N6  while True: if X: break; rest    ->  while not X: rest         (loops without else whose first statement is the exit test)
 Line numbers of the surviving statements are preserved, so reports still point at the original source lines.
 """
 from __future__ import annotations
@@ -29,6 +30,18 @@ class _N(ast.NodeTransformer):
                 return ast.copy_location(ast.AugAssign(target=t, op=v.op, value=v.right), node)
             if isinstance(v.op, ast.Add) and _same(t, v.right) and isinstance(v.left, ast.Constant) and isinstance(v.left.value, (int, float)):
                 return ast.copy_location(ast.AugAssign(target=t, op=v.op, value=v.left), node)
+        return node
+
+    def visit_While(self, node: ast.While):
+        self.generic_visit(node)
+        # N6: while True: if X: break; rest   ->   while not X: rest
+        if isinstance(node.test, ast.Constant) and node.test.value is True and not node.orelse and node.body:
+            first = node.body[0]
+            if isinstance(first, ast.If) and not first.orelse and len(first.body) == 1 and isinstance(first.body[0], ast.Break) \
+                    and len(node.body) > 1:
+                t = first.test
+                test = t.operand if isinstance(t, ast.UnaryOp) and isinstance(t.op, ast.Not) else ast.UnaryOp(op=ast.Not(), operand=t)
+                return ast.copy_location(ast.While(test=test, body=node.body[1:], orelse=[]), node)
         return node
 
     def visit_If(self, node: ast.If):
